@@ -26,6 +26,7 @@ import (
 	"encoding/json"
 	"fmt"
 	"os"
+	"strings"
 	"time"
 
 	"verif/vkit"
@@ -51,6 +52,10 @@ var (
 )
 
 func seq(tier string, sh *vkit.Shard, p *vkit.Part) {
+	sh = seqShard(tier, sh)
+	if sh == nil {
+		return
+	}
 	for i, f := range parts {
 		if only := os.Getenv("VERIF_C11_PART"); only != "" && only != fmt.Sprint(i) {
 			continue // development aid: run one sequential space only (0 parser, 1 resp, 2 ws)
@@ -62,6 +67,41 @@ func seq(tier string, sh *vkit.Shard, p *vkit.Part) {
 			fmt.Fprintf(os.Stderr, "timing shard %d/%d part %d: %.1fs\n", sh.I, sh.N, i, time.Since(t0).Seconds())
 		}
 	}
+}
+
+// seqShard decides which worker enumerates which sequential work items. vkit deals the
+// scheduled scenarios out round-robin and then hands the same selector to Seq; in the quick tier
+// one scheduled scenario (the write queue with close racing at preemption bound 2) alone takes
+// about as long as everything else a worker does, so the worker that holds it gets no sequential
+// items and the others share them. This changes only who does what: every item is still
+// enumerated by exactly one worker.
+func seqShard(tier string, sh *vkit.Shard) *vkit.Shard {
+	if sh.N < 4 || buildScheduled == nil {
+		return sh
+	}
+	heavy, maxP, unique := -1, 0, false
+	for i, sc := range buildScheduled(tier) {
+		if !strings.HasPrefix(sc.Name, "writequeue ") {
+			continue // the send-queue scenarios are small at any bound used here
+		}
+		switch {
+		case sc.P > maxP:
+			heavy, maxP, unique = i, sc.P, true
+		case sc.P == maxP:
+			unique = false
+		}
+	}
+	if !unique {
+		return sh
+	}
+	hs := heavy % sh.N
+	switch {
+	case sh.I == hs:
+		return nil
+	case sh.I > hs:
+		return &vkit.Shard{I: sh.I - 1, N: sh.N - 1}
+	}
+	return &vkit.Shard{I: sh.I, N: sh.N - 1}
 }
 
 func replay(scenario string, input json.RawMessage) string {
